@@ -452,6 +452,29 @@ func checkCase(cs caseSpec, salt uint64) (string, string) {
 		if !bytes.Equal(marshal(denseOf(p, u)), marshal(denseOf(p, s))) {
 			return "marshal-changes-merge", fmt.Sprintf("%s: the unmarshalled sketch merges differently from the original", name)
 		}
+		// the decoded sketch owns its state: neither re-using the input buffer nor changing a
+		// second sketch decoded from the same bytes may change its estimate
+		keep := append([]byte(nil), b...)
+		u2 := &hll.Plus{}
+		if err := u2.UnmarshalBinary(b); err != nil {
+			return "unmarshal-error", fmt.Sprintf("%s: second UnmarshalBinary of the same bytes fails: %v", name, err)
+		}
+		for j := 0; j < 60; j++ {
+			u2.Add(keyOf(salt^0x5EED5EED, cs.Domain+500+j))
+		}
+		if uc := u.Count(); uc != cnt {
+			return "unmarshal-aliases-input", fmt.Sprintf("%s: Count %d -> %d after adding keys to ANOTHER sketch decoded from the same bytes", name, cnt, uc)
+		}
+		if !bytes.Equal(b, keep) {
+			return "unmarshal-aliases-input", fmt.Sprintf("%s: adding keys to a decoded sketch rewrote the caller's serialized bytes", name)
+		}
+		for j := range b {
+			b[j] = 0xFF
+		}
+		if uc := u.Count(); uc != cnt {
+			return "unmarshal-aliases-input", fmt.Sprintf("%s: Count %d -> %d after the caller overwrote the buffer it had passed to UnmarshalBinary", name, cnt, uc)
+		}
+		copy(b, keep)
 		if i > 0 {
 			if b[2] == 1 {
 				rec.Class("marshal:sparse")
